@@ -451,6 +451,14 @@ func genWdsAddr(r *wire.Rng, out *wire.Out, reqOp string) {
 				if len(add)+len(rem) > 0 {
 					out.Line(reqOp, wire.EncList(add), wire.EncList(rem), "-", "empty")
 				}
+			} else if r.Chance(1, 2) {
+				// a wildcard client names resources explicitly next to its wildcard (or drops such names again):
+				// answered as a request (everything, plus removals for names that do not exist)
+				add := wire.Subset(r, keys, 1, 4)
+				rem := wire.Subset(r, keys, 1, 8)
+				if len(add)+len(rem) > 0 {
+					out.Line(reqOp, wire.EncList(add), wire.EncList(rem), "-", wire.Pick(r, []string{"empty", "cur"}))
+				}
 			} else {
 				out.Line(reqOp, "-", "-", "-", "cur") // ACK
 			}
@@ -649,6 +657,12 @@ func oracleWds(in string) []string {
 					verdict = fmt.Sprintf("FAIL wds-removed-still-needed op=%d type=%s removed=%s exists", idx-1, typ, n)
 				}
 				for _, rr := range resp.Resources {
+					// (on-demand only: the wildcard path has no alias rule - a wildcard client that names an ADDRESS
+					// explicitly is told the address is "removed" while the resource behind it is delivered,
+					// observation O-C03-5; no ztunnel does that)
+					if wild {
+						break
+					}
 					if x, ok := byName[rr.Name]; ok && x.alias == n {
 						verdict = fmt.Sprintf("FAIL wds-removed-still-needed op=%d type=%s removed=%s is-an-address-of=%s (delivered in the same response)", idx-1, typ, n, rr.Name)
 					}
